@@ -18,3 +18,12 @@ Fixpoint list_eqb {A} (eqb : A -> A -> bool) (a b : list A) : bool :=
   | x :: r, y :: s => eqb x y && list_eqb eqb r s
   | _, _ => false
   end.
+
+(* classification: 0 = fine; other codes name a failure class (see the engine's summary) *)
+Definition coded {A} (f : A -> N) (l : list A) : list (N * N) :=
+  let fix go (i : N) (l : list A) : list (N * N) :=
+    match l with
+    | [] => []
+    | x :: r => let c := f x in if N.eqb c 0 then go (N.succ i) r else (i, c) :: go (N.succ i) r
+    end in
+  go 0%N l.
